@@ -160,6 +160,18 @@ def sigma_writes(func, mgr_classes):
                     p = getattr(p, '_parent', None)
                 if mut:
                     out.append((n, f'container:{w.attr}', recv, None))
+        # … through a local that names one of the tables (`handlers = self._handlers[name]; handlers.remove(method)`)
+        for c in calls_in(st):
+            if isinstance(c.func, ast.Attribute) and c.func.attr in MUTATORS and isinstance(c.func.value, ast.Name):
+                ex = pat.expand_alias(func, n, c.func.value.id)
+                if ex != c.func.value.id:
+                    try:
+                        et = ast.parse(ex, mode='eval').body
+                    except SyntaxError:
+                        continue
+                    for w in ast.walk(et):
+                        if isinstance(w, ast.Attribute) and w.attr in STATE_CONTAINERS:
+                            out.append((n, f'container:{w.attr}', src(w.value), None))
         for recv, attr, val in pat.attr_store(st):
             if attr in ('parent', 'root'):
                 if recv == 'self':
@@ -851,7 +863,9 @@ def rule_h(repo, chk):
         adds = [n for n in g.nodes if ('loop', lp.ast) in n.ctx and files(n, 'self._handlers', nv)]
         tests = [n for n in g.nodes if n.kind == 'test' and ('loop', lp.ast) in n.ctx]
         brk = [n for n in g.nodes if n.kind == 'stmt' and ('loop', lp.ast) in n.ctx and isinstance(n.ast, (ast.Break, ast.Continue, ast.Return))]
-        ok = bool(adds) and not tests and not brk
+        swallowed = [e for n in g.nodes if ('loop', lp.ast) in n.ctx for e in n.succ if e.kind == 'x' and e.dst.kind != 'raise' and e.dst is not g.raise_exit
+                     and ('loop', lp.ast) not in e.dst.ctx]
+        ok = bool(adds) and not tests and not brk and not swallowed
     chk.ob('h', a.ref, 'a handler is filed under every event name it declares (no name skipped)', ok, loc(a, a.node), discr='all-names-added')
     star = [n for n in g.nodes if files(n, 'self._handlers', "'*'")]
     glob = [n for n in g.nodes if files(n, 'self._globals', None)]
@@ -906,7 +920,11 @@ def rule_h(repo, chk):
         rest = [f for f in first if f not in rem]
         p = Q.escapes(gr, rest, lambda n: n in rem, extra_exit=lambda n: n is lp) if rest else None
         brk = [n for n in gr.nodes if n.kind == 'stmt' and ('loop', lp.ast) in n.ctx and isinstance(n.ast, (ast.Break, ast.Return))]
-        okr = bool(rem) and p is None and not brk
+        # … nor does an exception of one iteration end the loop quietly (caught or suppressed around the loop instead of inside it): the names that follow
+        # would stay filed
+        swallowed = [e for n in gr.nodes if ('loop', lp.ast) in n.ctx for e in n.succ if e.kind == 'x' and e.dst.kind != 'raise' and e.dst is not gr.raise_exit
+                     and ('loop', lp.ast) not in e.dst.ctx]
+        okr = bool(rem) and p is None and not brk and not swallowed
     chk.ob('h', r.ref, 'removeHandler removes the handler from every name it was filed under (or from the one name given)', okr and okn, loc(r, r.node),
            discr='all-names-removed')
     # mirror of addHandler for handlers without names: they are filed in the "*" table or in the globals, and removeHandler must look there
